@@ -5,7 +5,9 @@ Those theorems are then checked by coqc: the laws proved about model/Lattice.v
 (coq/props/C07.v, C08.v) are thereby re-established for what the source says NOW.
 
 Translated functions
-  distances.py : squared_euclidean, manhattan, chebyshev, hamming, bray_curtis
+  distances.py : squared_euclidean, manhattan, chebyshev, hamming, bray_curtis;
+                 the accumulator loops of cosine, alternative_cosine, true_angular, dot, alternative_dot (the branch
+                 structure after the loop is compared, as a syntax tree, with the one model/Lattice.v encodes)
   sparse.py    : sparse_diff, sparse_squared_euclidean, sparse_manhattan,
                  sparse_chebyshev, sparse_hamming
 (sparse_sum, the two-pointer merge under sparse_diff, stays hand-modelled in
@@ -175,7 +177,13 @@ class Kernel:
             raise Unsupported("loop header of %s" % self.name)
         env = set(self.state)
         self.step = self.stmts(loop.body, env, lambda env2: self.tuple_of(self.state))
-        self.result = self.ret(body[k + 1:], env)
+        if self.name in ANGULAR_TAILS:
+            want = [ast.dump(t) for t in ast.parse(ANGULAR_TAILS[self.name]).body]
+            if [ast.dump(t) for t in body[k + 1:]] != want:
+                raise Unsupported("the branches after the loop of %s are not the expected ones (zero tests / sentinel / wrapper)" % self.name)
+            self.result = ("ANG", None)
+        else:
+            self.result = self.ret(body[k + 1:], env)
         return self
 
     def ret(self, tail, env):
@@ -206,7 +214,21 @@ class Kernel:
         raise Unsupported("return of %s" % self.name)
 
 
-DENSE = ["squared_euclidean", "manhattan", "chebyshev", "hamming", "bray_curtis"]
+# the branch structure after the accumulator loop of the angular kernels: compared as syntax trees (fail closed); it is what
+# model/Lattice.v encodes as AZero / AOne / AMax / ARatio
+_COS_HEAD = "if norm_x == 0.0 and norm_y == 0.0:\n    return 0.0\nelif norm_x == 0.0 or norm_y == 0.0:\n    return %s\n"
+ANGULAR_TAILS = {
+    "cosine": _COS_HEAD % "1.0" + "else:\n    return 1.0 - (result / np.sqrt(norm_x * norm_y))\n",
+    "alternative_cosine": _COS_HEAD % "FLOAT32_MAX" + "elif result <= 0.0:\n    return FLOAT32_MAX\nelse:\n"
+                          "    result = np.sqrt(norm_x * norm_y) / result\n    return np.log2(result)\n",
+    "true_angular": _COS_HEAD % "FLOAT32_MAX" + "elif result <= 0.0:\n    return FLOAT32_MAX\nelse:\n"
+                    "    result = result / np.sqrt(norm_x * norm_y)\n    return 1.0 - (np.arccos(min(1.0, result)) / np.pi)\n",
+    "dot": "if result <= 0.0:\n    return 1.0\nelse:\n    return 1.0 - result\n",
+    "alternative_dot": "if result <= 0.0:\n    return FLOAT32_MAX\nelse:\n    return -np.log2(result)\n",
+}
+ANGULAR = ["cosine", "alternative_cosine", "true_angular", "dot", "alternative_dot"]
+
+DENSE = ["squared_euclidean", "manhattan", "chebyshev", "hamming", "bray_curtis"] + ANGULAR
 SPARSE = ["sparse_squared_euclidean", "sparse_manhattan", "sparse_chebyshev"]
 
 
@@ -286,6 +308,10 @@ def emit_gen(ks, path):
         pat = Kernel.pattern(k.state)
         init = Kernel.tuple_of(["0"] * len(k.state))
         kind, res = k.result
+        if kind == "ANG":
+            out.append("Definition gen_%s_step (st : %s) (a b : Z) : %s := let %s := st in %s." % (name, sty, sty, pat, k.step))
+            out.append("Definition gen_%s_acc (x y : list Z) : %s := loop2 gen_%s_step %s x y.\n" % (name, sty, name, init))
+            continue
         if k.sparse:
             out.append("Definition gen_%s_step (st : %s) (d : Z) : %s := let %s := st in %s." % (name, sty, sty, pat, k.step))
             out.append("Definition gen_%s (a b : svec) : Z := let %s := loop1 gen_%s_step %s (map snd (sparse_sum a (sparse_neg b))) in %s.\n"
@@ -352,6 +378,33 @@ Proof. intros. unfold gen_sparse_chebyshev, sparse_chebyshev, sparse_diff. cbv z
 Theorem tie_sparse_hamming : forall a b n, gen_sparse_hamming a b n = sparse_hamming a b n.
 Proof. reflexivity. Qed.
 
+From PV Require LatticeProofs.
+(* angular kernels: the regenerated accumulator loops are cos_loop / dot_loop; the branches after the loop were compared
+   with the expected syntax tree by the translator *)
+Ltac ang_eq := cbv beta delta [gen_cosine_step gen_alternative_cosine_step gen_true_angular_step gen_dot_step gen_alternative_dot_step] zeta;
+  try reflexivity; try (f_equal; ring); try ring.
+Lemma tie_cosine_loop : forall x y r nx ny, loop2 gen_cosine_step (r, nx, ny) x y = cos_loop r nx ny x y.
+Proof. induction x as [|a x IH]; intros [|b y] r nx ny; cbn [loop2 cos_loop]; auto; rewrite <- IH; f_equal; ang_eq. Qed.
+Lemma tie_alternative_cosine_loop : forall x y r nx ny, loop2 gen_alternative_cosine_step (r, nx, ny) x y = cos_loop r nx ny x y.
+Proof. induction x as [|a x IH]; intros [|b y] r nx ny; cbn [loop2 cos_loop]; auto; rewrite <- IH; f_equal; ang_eq. Qed.
+Lemma tie_true_angular_loop : forall x y r nx ny, loop2 gen_true_angular_step (r, nx, ny) x y = cos_loop r nx ny x y.
+Proof. induction x as [|a x IH]; intros [|b y] r nx ny; cbn [loop2 cos_loop]; auto; rewrite <- IH; f_equal; ang_eq. Qed.
+Lemma tie_dot_loop : forall x y r, loop2 gen_dot_step r x y = dot_loop r x y.
+Proof. induction x as [|a x IH]; intros [|b y] r; cbn [loop2 dot_loop]; auto; rewrite <- IH; f_equal; ang_eq. Qed.
+Lemma tie_alternative_dot_loop : forall x y r, loop2 gen_alternative_dot_step r x y = dot_loop r x y.
+Proof. induction x as [|a x IH]; intros [|b y] r; cbn [loop2 dot_loop]; auto; rewrite <- IH; f_equal; ang_eq. Qed.
+Theorem tie_angular : forall x y,
+  gen_cosine_acc x y = cos_loop 0 0 0 x y /\ gen_alternative_cosine_acc x y = cos_loop 0 0 0 x y /\
+  gen_true_angular_acc x y = cos_loop 0 0 0 x y /\ gen_dot_acc x y = dot_loop 0 x y /\ gen_alternative_dot_acc x y = dot_loop 0 x y.
+Proof.
+  intros. unfold gen_cosine_acc, gen_alternative_cosine_acc, gen_true_angular_acc, gen_dot_acc, gen_alternative_dot_acc.
+  repeat split; [apply tie_cosine_loop | apply tie_alternative_cosine_loop | apply tie_true_angular_loop | apply tie_dot_loop | apply tie_alternative_dot_loop].
+Qed.
+(* Cauchy-Schwarz for the regenerated accumulators *)
+Theorem regenerated_cosine_cauchy_schwarz : forall x y,
+  let '(r, nx, ny) := gen_cosine_acc x y in 0 <= nx /\ 0 <= ny /\ r * r <= nx * ny.
+Proof. intros x y. destruct (tie_angular x y) as (E & _). rewrite E. apply LatticeProofs.cauchy_schwarz. Qed.
+
 (* the laws of coq/props/C07.v and C08.v restated for the regenerated definitions *)
 From PV Require Import LatticeProofs.
 Theorem regenerated_kernels_symmetric_and_zero_on_identical : forall x y,
@@ -374,10 +427,12 @@ Proof.
 Qed.
 Print Assumptions regenerated_kernels_symmetric_and_zero_on_identical.
 Print Assumptions regenerated_sparse_eq_dense.
+Print Assumptions regenerated_cosine_cauchy_schwarz.
 """
 
 TIE_THEOREMS = ["tie_squared_euclidean", "tie_manhattan", "tie_chebyshev", "tie_hamming", "tie_bray_curtis",
                 "tie_sparse_squared_euclidean", "tie_sparse_manhattan", "tie_sparse_chebyshev", "tie_sparse_hamming",
+                "tie_angular", "regenerated_cosine_cauchy_schwarz",
                 "regenerated_kernels_symmetric_and_zero_on_identical", "regenerated_sparse_eq_dense"]
 
 # translator self-test: snippets with known verdicts (accepted text / rejected)
